@@ -37,8 +37,8 @@ META = {
                   "(1.4e-8), 1e-5 for discontinuous (pwc/rect) coefficients.",
     "shards": {"quick": 3, "thorough": 16},
     "budget_s": {"quick": 55, "thorough": 420},
-    "min_evals": {"quick": 60, "thorough": 800},
-    "min_nontrivial": {"quick": 25, "thorough": 300},
+    "min_evals": {"quick": 60, "thorough": 2500},
+    "min_nontrivial": {"quick": 25, "thorough": 900},
     "deciding": ["evolve.ode", "evolve.expm", "pulse.convenience", "pulse.hardware"],
     "allow_rejections": True,
     "rule": "case = (Hamiltonian description, parameters, time window, options); distinct = distinct content; non-trivial = the propagator "
